@@ -182,7 +182,19 @@ impl Reasoner {
                 }
             }
         }
-        repairs
+        // The search may reach a consistent subset before one of its consistent
+        // supersets, so the maximality test above (against the repairs found so
+        // far) is not enough: keep only the subset-maximal candidates, each once.
+        let mut maximal: Vec<HashSet<Triple>> = Vec::new();
+        for candidate in &repairs {
+            let dominated = repairs
+                .iter()
+                .any(|other| other != candidate && other.is_superset(candidate));
+            if !dominated && !maximal.contains(candidate) {
+                maximal.push(candidate.clone());
+            }
+        }
+        maximal
     }
 }
 
